@@ -9,11 +9,11 @@ use serde::de::DeserializeSeed;
 use serde_json::{json, Value};
 use std::sync::{Arc, Mutex};
 use surf_n_term::view::{
-    Align, Axis, BoxConstraint, Container, Dynamic, Either, Flex, FlexChild, FlexRef, Frame, Justify, Layout, Margins, ScrollBar,
-    ScrollBarPosition, Tag, Text, Tree, View, ViewContext, ViewDeserializer, ViewLayout, ViewLayoutStore, ViewMutLayout,
+    Align, ArcView, Axis, BoxConstraint, Container, Dynamic, Either, Flex, FlexChild, FlexRef, Frame, Justify, Layout, Margins, ScrollBar,
+    ScrollBarPosition, Tag, Text, Tree, TreeMut, View, ViewCache, ViewContext, ViewDeserializer, ViewLayout, ViewLayoutStore, ViewMutLayout,
 };
 use surf_n_term::{
-    Cell, CellWrite, Error, Face, Position, Size, Surface, SurfaceMut, SurfaceMutView, TerminalSurface, RGBA,
+    Cell, CellWrite, Error, Face, Position, Size, Surface, SurfaceMut, SurfaceMutView, SurfaceOwned, TerminalSurface, RGBA,
 };
 
 type BView = Box<dyn View + 'static>;
@@ -60,6 +60,41 @@ impl View for DynView {
     }
 }
 
+/// the cache behind JSON "ref": uid -> the view built from the AST node registered under it
+struct Cache {
+    views: Vec<ArcView<'static>>,
+}
+
+impl ViewCache for Cache {
+    fn get(&self, uid: i64) -> Option<ArcView<'static>> {
+        if uid < 0 {
+            return None;
+        }
+        self.views.get(uid as usize).cloned()
+    }
+}
+
+fn base64(data: &[u8]) -> String {
+    const T: &[u8; 64] = b"ABCDEFGHIJKLMNOPQRSTUVWXYZabcdefghijklmnopqrstuvwxyz0123456789+/";
+    let mut out = String::new();
+    for ch in data.chunks(3) {
+        let b = [ch[0], *ch.get(1).unwrap_or(&0), *ch.get(2).unwrap_or(&0)];
+        let n = ((b[0] as u32) << 16) | ((b[1] as u32) << 8) | b[2] as u32;
+        out.push(T[(n >> 18) as usize & 63] as char);
+        out.push(T[(n >> 12) as usize & 63] as char);
+        out.push(if ch.len() > 1 { T[(n >> 6) as usize & 63] as char } else { '=' });
+        out.push(if ch.len() > 2 { T[n as usize & 63] as char } else { '=' });
+    }
+    out
+}
+
+/// JSON document of an image of one colour (3 channels)
+fn image_doc(h: usize, w: usize, color: u64) -> Value {
+    let px = [(color >> 24) as u8, (color >> 16) as u8, (color >> 8) as u8];
+    let data: Vec<u8> = (0..h * w).flat_map(|_| px).collect();
+    json!({"data": base64(&data), "channels": 3, "size": {"height": h, "width": w}})
+}
+
 // ---------- AST helpers ----------
 fn kind_code(t: &str) -> u64 {
     match t {
@@ -77,6 +112,9 @@ fn kind_code(t: &str) -> u64 {
         "image" => 12,
         "glyph" => 13,
         "probe" => 14,
+        "surface" => 15,
+        "ascii" => 16,
+        "cached" => 17,
         _ => 0,
     }
 }
@@ -157,7 +195,27 @@ fn string_of(node: &Value) -> String {
 
 /// flex factor as given (quarters); None when absent
 fn flex_of(kid: &Value) -> Option<f64> {
+    // "flexf": an arbitrary double (the case is then judged by the predicate alone)
+    if let Some(f) = kid["flexf"].as_f64() {
+        return Some(f);
+    }
     kid["flex"].as_i64().map(|k| k as f64 / 4.0)
+}
+
+fn has_flex(v: &Value) -> bool {
+    match v {
+        Value::Object(m) => m.iter().any(|(k, x)| (k == "flex" && x.as_i64().map(|q| q > 0).unwrap_or(false)) || has_flex(x)),
+        Value::Array(a) => a.iter().any(has_flex),
+        _ => false,
+    }
+}
+
+fn has_inexact(v: &Value) -> bool {
+    match v {
+        Value::Object(m) => m.iter().any(|(k, x)| (k == "flexf" && x.is_number()) || has_inexact(x)),
+        Value::Array(a) => a.iter().any(has_inexact),
+        _ => false,
+    }
 }
 
 struct Env {
@@ -221,11 +279,15 @@ fn build(node: &Value, env: &Arc<Env>) -> BView {
             let c = color_from(node["color"].as_u64().unwrap_or(255));
             Box::new(Frame::new(build(&node["v"], env), c, c, 0.1, 0.2))
         }
-        "scroll" => Box::new(ScrollBar::new(
-            axis_from(&node["dir"]),
-            face_from(&node["face"]),
-            ScrollBarPosition { offset: node["off"].as_u64().unwrap_or(0) as f64 / 8.0, visible: node["vis"].as_u64().unwrap_or(0) as f64 / 8.0 },
-        )),
+        "scroll" => {
+            let (off, vis, den) = (node["off"].as_u64().unwrap_or(0), node["vis"].as_u64().unwrap_or(0), node["den"].as_u64().unwrap_or(8));
+            let pos = if den == 0 {
+                ScrollBarPosition::from_counts(0, off as usize, vis as usize)
+            } else {
+                ScrollBarPosition { offset: off as f64 / den as f64, visible: vis as f64 / den as f64 }
+            };
+            Box::new(ScrollBar::new(axis_from(&node["dir"]), face_from(&node["face"]), pos))
+        }
         "tag" => Box::new(Tag::new(node["tag"].as_u64().unwrap_or(0), build(&node["v"], env))),
         "none" => Box::new(Option::<BView>::None),
         "some" => return Box::new(Some(build(&node["v"], env))),
@@ -238,7 +300,7 @@ fn build(node: &Value, env: &Arc<Env>) -> BView {
             let (a, b) = (node["a"].clone(), node["b"].clone());
             let env2 = env.clone();
             Box::new(Dynamic::new(move |_ctx: &ViewContext, ct: BoxConstraint| {
-                let pick = if ct.max().width > k * ct.max().height { &a } else { &b };
+                let pick = if (ct.max().width as u128) > (k as u128) * (ct.max().height as u128) { &a } else { &b };
                 DynView { ct, inner: build(pick, &env2) }
             }))
         }
@@ -252,6 +314,27 @@ fn build(node: &Value, env: &Arc<Env>) -> BView {
             Some(g) => Box::new(g.clone()),
             None => Box::new(()),
         },
+        "surface" => {
+            // SurfaceView<'static, Cell> over a leaked surface filled with one cell
+            let cell = Cell::new_char(face_from(&node["face"]), char::from_u32(node["ch"].as_u64().unwrap_or(83) as u32).unwrap_or('S'));
+            let owned: &'static SurfaceOwned<Cell> = Box::leak(Box::new(SurfaceOwned::new_with(
+                Size::new(node["h"].as_u64().unwrap_or(1) as usize, node["w"].as_u64().unwrap_or(1) as usize),
+                |_| cell.clone(),
+            )));
+            Box::new(owned.as_ref())
+        }
+        "ascii" => {
+            let doc = image_doc(node["h"].as_u64().unwrap_or(1) as usize, node["w"].as_u64().unwrap_or(1) as usize, node["color"].as_u64().unwrap_or(255));
+            let v: surf_n_term::image::ImageAsciiView = serde_json::from_value(doc).expect("image_ascii");
+            Box::new(v)
+        }
+        "cached" => {
+            // ViewCached is only reachable through JSON: {"type": "ref", "ref": uid}
+            let cache = Cache { views: match node.get("v") { Some(v) if !v.is_null() => vec![Arc::from(build(v, env))], _ => vec![] } };
+            let de = ViewDeserializer::new(None, Some(Arc::new(cache)));
+            let v = (&de).deserialize(json!({"type": "ref", "ref": 0})).expect("ref");
+            return Box::new(v);
+        }
         _ => Box::new(Probe {
             id: node["id"].as_u64().unwrap_or(0),
             pref: Size::new(node["ph"].as_u64().unwrap_or(1) as usize, node["pw"].as_u64().unwrap_or(1) as usize),
@@ -290,7 +373,7 @@ fn align_doc(v: &Value) -> Value {
 
 /// JSON document of the subtree; flex / container / tag / plain text are genuine library types,
 /// every other node goes through the custom type "h" registered by the harness
-fn doc(node: &Value) -> Value {
+fn doc(node: &Value, env: &Env) -> Value {
     match node["t"].as_str().unwrap_or("") {
         "flex" => {
             let kids: Vec<Value> = node["kids"]
@@ -299,7 +382,7 @@ fn doc(node: &Value) -> Value {
                 .unwrap_or_default()
                 .iter()
                 .map(|k| {
-                    let mut c = json!({"view": doc(&k["v"]), "align": align_doc(&k["align"])});
+                    let mut c = json!({"view": doc(&k["v"], env), "align": align_doc(&k["align"])});
                     if let Some(f) = flex_of(k) {
                         c["flex"] = json!(f);
                     }
@@ -316,19 +399,39 @@ fn doc(node: &Value) -> Value {
         "container" => {
             let m = vusizes(&node["m"]);
             let sz = vusizes(&node["size"]);
-            json!({"type": "container", "child": doc(&node["v"]), "face": face_str(&node["face"]),
+            json!({"type": "container", "child": doc(&node["v"], env), "face": face_str(&node["face"]),
                    "vertical": align_doc(&node["av"]), "horizontal": align_doc(&node["ah"]),
                    "margins": {"left": m[0], "right": m[1], "top": m[2], "bottom": m[3]},
                    "size": {"height": sz[0], "width": sz[1]}})
         }
-        "tag" => json!({"type": "tag", "tag": node["tag"], "view": doc(&node["v"])}),
+        "tag" => json!({"type": "tag", "tag": node["tag"], "view": doc(&node["v"], env)}),
         "str" => json!({"type": "text", "text": string_of(node)}),
+        "image" => match env.defs.images.get(node["id"].as_u64().unwrap_or(0) as usize) {
+            Some(i) => {
+                let mut d = image_doc(i.height(), i.width(), 0x204060ff);
+                d["type"] = json!("image");
+                d
+            }
+            None => json!({"type": "h", "node": node}),
+        },
+        "glyph" => match env.defs.glyphs.get(node["id"].as_u64().unwrap_or(0) as usize) {
+            Some(g) => json!({"type": "glyph", "path": "M0,0L1,1L1,0Z", "size": {"height": g.size().height, "width": g.size().width},
+                              "fallback": g.fallback_str()}),
+            None => json!({"type": "h", "node": node}),
+        },
+        "ascii" => {
+            let mut d = image_doc(node["h"].as_u64().unwrap_or(1) as usize, node["w"].as_u64().unwrap_or(1) as usize, node["color"].as_u64().unwrap_or(255));
+            d["type"] = json!("image_ascii");
+            d
+        }
         _ => json!({"type": "h", "node": node}),
     }
 }
 
 // ---------- Coq printing ----------
-fn node_coq(node: &Value, env: &Env) -> String {
+fn node_coq(node: &Value, env: &Env, genuine: bool) -> String {
+    // genuine: the node is deserialised by the library itself (JSON route, below flex / container / tag only);
+    // images and glyphs are then fresh objects, not the ones of the case's tables
     let defs = &env.defs;
     match node["t"].as_str().unwrap_or("") {
         "text" => {
@@ -338,12 +441,13 @@ fn node_coq(node: &Value, env: &Env) -> String {
         "str" => format!("(VStr {})", clist(vusizes(&node["s"]).iter().map(|c| c.to_string()))),
         "flex" => {
             let kids = clist(node["kids"].as_array().cloned().unwrap_or_default().iter().map(|k| {
-                let fl = match k["flex"].as_i64() {
-                    Some(q) if q > 0 => format!("(Some {}%positive)", q),
+                let fl = match (k["flexf"].as_f64(), k["flex"].as_i64()) {
+                    (Some(f), _) => if f > 0.0 { "(Some 1%positive)".to_string() } else { "None".to_string() },
+                    (None, Some(q)) if q > 0 => format!("(Some {}%positive)", q),
                     _ => "None".to_string(),
                 };
                 let face = if k["face"].is_object() { format!("(Some {})", face_coq(&face_from(&k["face"]))) } else { "None".to_string() };
-                format!("({}, {}, {}, {})", node_coq(&k["v"], env), fl, face, align_coq(&k["align"]))
+                format!("({}, {}, {}, {})", node_coq(&k["v"], env, genuine), fl, face, align_coq(&k["align"]))
             }));
             format!("(VFlex {} {} {})", if node["dir"].as_str() == Some("v") { "Ver" } else { "Hor" }, justify_coq(&node["j"]), kids)
         }
@@ -352,7 +456,7 @@ fn node_coq(node: &Value, env: &Env) -> String {
             let sz = vusizes(&node["size"]);
             format!(
                 "(VContainer {} {} {} {} (mkM {} {} {} {}) {} {})",
-                node_coq(&node["v"], env),
+                node_coq(&node["v"], env, genuine),
                 face_coq(&face_from(&node["face"])),
                 align_coq(&node["av"]),
                 align_coq(&node["ah"]),
@@ -364,38 +468,51 @@ fn node_coq(node: &Value, env: &Env) -> String {
                 sz[1]
             )
         }
-        "frame" => format!("(VFrame {} {})", node_coq(&node["v"], env), node["color"].as_u64().unwrap_or(255)),
+        "frame" => format!("(VFrame {} {})", node_coq(&node["v"], env, false), node["color"].as_u64().unwrap_or(255)),
         "scroll" => format!(
-            "(VScrollBar {} {} {} {} 8)",
+            "(VScrollBar {} {} {} {} {})",
             if node["dir"].as_str() == Some("v") { "Ver" } else { "Hor" },
             face_coq(&face_from(&node["face"])),
             node["off"].as_u64().unwrap_or(0),
-            node["vis"].as_u64().unwrap_or(0)
+            node["vis"].as_u64().unwrap_or(0),
+            node["den"].as_u64().unwrap_or(8)
         ),
-        "tag" => format!("(VTag {} {})", node["tag"].as_u64().unwrap_or(0), node_coq(&node["v"], env)),
+        "tag" => format!("(VTag {} {})", node["tag"].as_u64().unwrap_or(0), node_coq(&node["v"], env, genuine)),
         "none" => "VNone".to_string(),
-        "some" | "either" => node_coq(&node["v"], env),
+        "some" | "either" => node_coq(&node["v"], env, false),
         "dyn" => format!(
             "(VDynamic (fun c => if ({} * c_maxh c <? c_maxw c) then {} else {}))",
             node["k"].as_u64().unwrap_or(1),
-            node_coq(&node["a"], env),
-            node_coq(&node["b"], env)
+            node_coq(&node["a"], env, false),
+            node_coq(&node["b"], env, false)
         ),
         "fill" => format!("(VFill {})", node["color"].as_u64().unwrap_or(255)),
         "unit" => "VUnit".to_string(),
         "image" => match defs.images.get(node["id"].as_u64().unwrap_or(0) as usize) {
-            Some(i) => format!("(VImage {} {} {})", node["id"].as_u64().unwrap_or(0), i.height(), i.width()),
+            Some(i) => format!("(VImage {} {} {})", if genuine { 999 } else { node["id"].as_u64().unwrap_or(0) }, i.height(), i.width()),
             None => "VUnit".to_string(),
         },
         "glyph" => match defs.glyphs.get(node["id"].as_u64().unwrap_or(0) as usize) {
             Some(g) => format!(
                 "(VGlyph {} {} {} {})",
-                node["id"].as_u64().unwrap_or(0),
+                if genuine { 999 } else { node["id"].as_u64().unwrap_or(0) },
                 cnat(g.size().height),
                 cnat(g.size().width),
                 clist(g.fallback_str().chars().map(|c| (c as u32).to_string()))
             ),
             None => "VUnit".to_string(),
+        },
+        "surface" => format!(
+            "(VSurface {} {} (mkCell {} (KChar {})))",
+            node["h"].as_u64().unwrap_or(1),
+            node["w"].as_u64().unwrap_or(1),
+            face_coq(&face_from(&node["face"])),
+            node["ch"].as_u64().unwrap_or(83)
+        ),
+        "ascii" => format!("(VImageAscii {} {} {})", node["h"].as_u64().unwrap_or(1), node["w"].as_u64().unwrap_or(1), (node["color"].as_u64().unwrap_or(255) & 0xffffff00) | 255),
+        "cached" => match node.get("v") {
+            Some(v) if !v.is_null() => format!("(VRef (Some {}))", node_coq(v, env, false)),
+            _ => "(VRef None)".to_string(),
         },
         _ => format!("(VProbe {} {} {})", node["id"].as_u64().unwrap_or(0), node["ph"].as_u64().unwrap_or(1), node["pw"].as_u64().unwrap_or(1)),
     }
@@ -406,6 +523,8 @@ fn tree_coq(t: ViewLayout<'_>) -> String {
         format!("(DTag {})", tag)
     } else if let Some(tag) = t.data::<Value>() {
         format!("(DTag {})", tag.as_u64().unwrap_or(0))
+    } else if t.data::<ArcView<'static>>().is_some() {
+        "DRef".to_string()
     } else if let Some(d) = t.data::<DynView>() {
         format!("(DCt (mkCt {} {} {} {}))", d.ct.min().height, d.ct.min().width, d.ct.max().height, d.ct.max().width)
     } else {
@@ -436,7 +555,7 @@ fn run_case(input: &Value, env: &Arc<Env>, hh: usize, ww: usize, vops: &[VOp]) -
         let mut de = ViewDeserializer::new(None, None);
         let env2 = env.clone();
         de.register("h", move |_seed: &ViewDeserializer<'_>, value: &Value| -> Arc<dyn View> { Arc::from(build(&value["node"], &env2)) });
-        let v = (&de).deserialize(doc(&input["tree"])).expect("deserialize");
+        let v = (&de).deserialize(doc(&input["tree"], env)).expect("deserialize");
         Box::new(v)
     } else {
         build(&input["tree"], env)
@@ -457,7 +576,7 @@ fn run_case(input: &Value, env: &Arc<Env>, hh: usize, ww: usize, vops: &[VOp]) -
     }
     // find_path for every position of a grid a little larger than the root
     let root = layout.view();
-    let (qh, qw) = ((root.size().height + 2).min(14), (root.size().width + 2).min(14));
+    let (qh, qw) = (root.size().height.saturating_add(2).min(14), root.size().width.saturating_add(2).min(14));
     let mut paths = vec![];
     for r in 0..qh {
         for c in 0..qw {
@@ -491,7 +610,77 @@ fn path_of_borrowed(root: &ViewLayout<'_>, pos: Position) -> Vec<usize> {
     out
 }
 
+// ---------- FindPath on hand-made layout trees ----------
+fn push_tree(mut parent: ViewMutLayout<'_>, node: &Value) {
+    for k in node["kids"].as_array().cloned().unwrap_or_default() {
+        let p = vusizes(&k["pos"]);
+        let z = vusizes(&k["size"]);
+        let child = parent.push(Layout::new().with_position(Position::new(p[0], p[1])).with_size(Size::new(z[0], z[1])));
+        push_tree(child, &k);
+    }
+}
+
+fn ltree_coq(node: &Value) -> String {
+    let p = vusizes(&node["pos"]);
+    let z = vusizes(&node["size"]);
+    format!(
+        "(LNode {} {} {} {} DNone {})",
+        p[0],
+        p[1],
+        z[0],
+        z[1],
+        clist(node["kids"].as_array().cloned().unwrap_or_default().iter().map(ltree_coq))
+    )
+}
+
+fn run_fp(input: &Value) -> Case {
+    let t = &input["tree"];
+    let out = catch(std::panic::AssertUnwindSafe(|| {
+        let p = vusizes(&t["pos"]);
+        let z = vusizes(&t["size"]);
+        let mut store = ViewLayoutStore::new();
+        let mut root = ViewMutLayout::new(&mut store, Layout::new().with_position(Position::new(p[0], p[1])).with_size(Size::new(z[0], z[1])));
+        push_tree(root.view_mut(), t);
+        let view = root.view();
+        let mut paths = vec![];
+        for r in 0..13 {
+            for c in 0..13 {
+                paths.push(path_of_borrowed(&view, Position::new(r, c)));
+            }
+        }
+        paths
+    }));
+    let mut j = input.clone();
+    let coq = match &out {
+        Some(paths) => {
+            j["impl"] = json!({"paths": paths});
+            format!("CF {} {}", ltree_coq(t), clist(paths.iter().map(|p| clist(p.iter().map(|i| cnat(*i))))))
+        }
+        None => {
+            j["impl"] = json!("panic");
+            format!("CF {} []", ltree_coq(t))
+        }
+    };
+    Case { coq, json: j, tags: vec!["kind=find_path".to_string()], nontrivial: out.is_some() }
+}
+
+fn gen_fp_node(rng: &mut Rng, depth: usize) -> Value {
+    let ext = |rng: &mut Rng| -> u64 {
+        match rng.below(14) {
+            0 => u64::MAX,
+            1 => u64::MAX - rng.below(4),
+            _ => rng.below(9),
+        }
+    };
+    let n = if depth == 0 { 0 } else { rng.below(5) as usize };
+    let kids: Vec<Value> = (0..n).map(|_| gen_fp_node(rng, depth - 1)).collect();
+    json!({"pos": [ext(rng), ext(rng)], "size": [ext(rng), ext(rng)], "kids": kids})
+}
+
 pub fn run(input: &Value) -> Case {
+    if input["k"].as_str() == Some("fp") {
+        return run_fp(input);
+    }
     let hh = input["H"].as_u64().unwrap_or(1) as usize;
     let ww = input["W"].as_u64().unwrap_or(1) as usize;
     let vops = vops_from(&input["vops"]);
@@ -506,7 +695,9 @@ pub fn run(input: &Value) -> Case {
     }
     let ct = vusizes(&input["ct"]);
     let head = format!(
-        "CV {} {} {} {} {} {} {} (mkCt {} {} {} {}) {}",
+        "CV {} {} {} {} {} {} {} {} (mkCt {} {} {} {}) {}",
+        // f64 shares are exact only while remain * factor stays below 2^53
+        cbool(!has_inexact(&input["tree"]) && !(has_flex(&input["tree"]) && (ct[2] >= 1 << 40 || ct[3] >= 1 << 40))),
         cnat(hh),
         cnat(ww),
         vops_coq(&vops),
@@ -518,7 +709,7 @@ pub fn run(input: &Value) -> Case {
         ct[1],
         ct[2],
         ct[3],
-        node_coq(&input["tree"], &env)
+        node_coq(&input["tree"], &env, route == "json")
     );
     let out = {
         let e = &env;
@@ -614,6 +805,7 @@ struct Gen {
     ng: usize,
     ni: usize,
     json_ok: bool,
+    inexact: bool,
 }
 
 fn gen_leaf(rng: &mut Rng, g: &mut Gen) -> Value {
@@ -632,8 +824,14 @@ fn gen_leaf(rng: &mut Rng, g: &mut Gen) -> Value {
             let n = rng.below(6) as usize;
             json!({"t": "str", "s": (0..n).map(|_| *rng.pick(&CHARS)).collect::<Vec<u32>>()})
         }
-        3 => json!({"t": "scroll", "dir": if rng.chance(1, 2) { "h" } else { "v" }, "face": gen_small_face(rng), "off": rng.below(9), "vis": rng.below(9)}),
+        3 => {
+            let (lim_o, lim_v) = (if rng.chance(1, 6) { 20 } else { 9 }, if rng.chance(1, 6) { 20 } else { 9 });
+            json!({"t": "scroll", "dir": if rng.chance(1, 2) { "h" } else { "v" }, "face": gen_small_face(rng),
+                   "off": rng.below(lim_o), "vis": rng.below(lim_v), "den": *rng.pick(&[8u64, 8, 8, 8, 3, 7, 0])})
+        }
         4 => json!({"t": "none"}),
+        14 => json!({"t": "surface", "h": rng.below(5), "w": rng.below(6), "ch": 83 + rng.below(3), "face": gen_small_face(rng)}),
+        15 => json!({"t": "ascii", "h": rng.below(7), "w": rng.below(6), "color": ((rng.below(256) << 24) | (rng.below(256) << 16) | 0x33ff) as u64}),
         5 => json!({"t": "fill", "color": ((rng.below(256) << 24) | (rng.below(256) << 16) | 0x55ff) as u64}),
         6 => json!({"t": "unit"}),
         7 if g.ni > 0 => json!({"t": "image", "id": rng.below(g.ni as u64)}),
@@ -665,14 +863,23 @@ fn gen_node(rng: &mut Rng, g: &mut Gen, depth: usize) -> Value {
                         4 => json!(*rng.pick(&[0i64, -4, -10])),
                         _ => json!(1 + rng.below(12)),
                     };
-                    json!({"v": gen_node(rng, g, depth - 1), "flex": flex, "face": if rng.chance(1, 4) { gen_small_face(rng) } else { Value::Null }, "align": gen_align(rng)})
+                    let mut kid = json!({"v": gen_node(rng, g, depth - 1), "flex": flex, "face": if rng.chance(1, 4) { gen_small_face(rng) } else { Value::Null }, "align": gen_align(rng)});
+                    if g.inexact && rng.chance(1, 2) {
+                        kid["flexf"] = json!(*rng.pick(&[1.0f64, 1e-20, 1e300, 0.1, 0.2, 0.3, 3.3, 1e-300, 5e-324, 1.7976931348623157e308, 2.5, -1e-20, 0.0, 7.0]));
+                    }
+                    kid
                 })
                 .collect();
             json!({"t": "flex", "dir": if rng.chance(1, 2) { "h" } else { "v" },
                    "j": *rng.pick(&["start", "center", "end", "between", "around", "evenly"]), "kids": kids})
         }
         4..=6 => {
-            let m: Vec<u64> = (0..4).map(|_| if rng.chance(1, 2) { 0 } else { gen_extent(rng) }).collect();
+            let m: Vec<u64> = if rng.chance(1, 3) {
+                // margins of a few cells on every side: larger than the box for tiny constraints
+                (0..4).map(|_| 1 + rng.below(3)).collect()
+            } else {
+                (0..4).map(|_| if rng.chance(1, 2) { 0 } else { gen_extent(rng) }).collect()
+            };
             json!({"t": "container", "v": gen_node(rng, g, depth - 1), "face": if rng.chance(1, 3) { gen_small_face(rng) } else { json!({"fg": null, "bg": null, "attrs": 0}) },
                    "av": gen_align(rng), "ah": gen_align(rng), "m": m, "size": [gen_extent(rng), gen_extent(rng)]})
         }
@@ -685,6 +892,13 @@ fn gen_node(rng: &mut Rng, g: &mut Gen, depth: usize) -> Value {
                 json!({"t": "either", "left": rng.chance(1, 2), "v": gen_node(rng, g, depth - 1)})
             }
         }
+        10 => {
+            if rng.chance(1, 5) {
+                json!({"t": "cached", "v": Value::Null})
+            } else {
+                json!({"t": "cached", "v": gen_node(rng, g, depth - 1)})
+            }
+        }
         _ => json!({"t": "dyn", "k": 1 + rng.below(3), "a": gen_node(rng, g, depth - 1), "b": gen_node(rng, g, depth - 1)}),
     }
 }
@@ -692,6 +906,11 @@ fn gen_node(rng: &mut Rng, g: &mut Gen, depth: usize) -> Value {
 pub fn generate(rng: &mut Rng, n: usize, _tier: &str) -> Vec<Value> {
     let mut v = vec![];
     while v.len() < n {
+        if rng.chance(1, 12) {
+            let depth = 1 + rng.below(3) as usize;
+            v.push(json!({"k": "fp", "tree": gen_fp_node(rng, depth)}));
+            continue;
+        }
         let ng = rng.below(3) as usize;
         let glyph_defs: Vec<Value> = (0..ng)
             .map(|_| {
@@ -701,7 +920,7 @@ pub fn generate(rng: &mut Rng, n: usize, _tier: &str) -> Vec<Value> {
             .collect();
         let ni = rng.below(3) as usize;
         let image_defs: Vec<Value> = (0..ni).map(|_| json!({"ph": rng.below(3 * PPC_H as u64), "pw": rng.below(4 * PPC_W as u64)})).collect();
-        let mut g = Gen { next_probe: 0, ng, ni, json_ok: true };
+        let mut g = Gen { next_probe: 0, ng, ni, json_ok: true, inexact: rng.chance(1, 6) };
         let depth = match rng.below(10) {
             0 => 0,
             1 => 1,
@@ -711,16 +930,23 @@ pub fn generate(rng: &mut Rng, n: usize, _tier: &str) -> Vec<Value> {
         let _ = g.json_ok;
         // constraint: min <= max, including zero and one-cell extents
         let ext = |rng: &mut Rng| -> u64 {
-            match rng.below(14) {
+            match rng.below(16) {
                 0 => 0,
                 1 | 2 => 1,
                 3 => 2,
+                4 => *rng.pick(&[u64::MAX, u64::MAX - 1, u64::MAX - 2, 1 << 63, (1 << 63) - 1, 1 << 32, 1_000_000]),
                 _ => rng.below(13),
             }
         };
         let (maxh, maxw) = (ext(rng), ext(rng));
-        let minh = if rng.chance(1, 3) { rng.below(maxh + 1) } else { 0 };
-        let minw = if rng.chance(1, 3) { rng.below(maxw + 1) } else { 0 };
+        let min_of = |rng: &mut Rng, mx: u64| -> u64 {
+            match rng.below(9) {
+                0 | 1 => rng.below(mx.min(20) + 1),
+                2 => mx,
+                _ => 0,
+            }
+        };
+        let (minh, minw) = (min_of(rng, maxh), min_of(rng, maxw));
         // canvas and view: room for the root plus what frames / scroll bars add, padded
         let (vh, vw) = (1 + rng.below(12) as usize, 1 + rng.below(14) as usize);
         let pad: Vec<usize> = (0..4).map(|_| rng.below(3) as usize).collect();
